@@ -24,6 +24,7 @@ structure Header where
   root : Hash
   difficulty : Nat
   number : Nat             -- Height.RevisionHeight
+  rev : Nat                -- Height.RevisionNumber (not part of the hash, not part of the header-index key)
   gasLimit : Nat
   gasUsed : Nat
   time : Nat
@@ -64,6 +65,7 @@ structure State where
   head : Header                    -- ClientState.Header
   chainId : Nat
   trusting : Nat                   -- ClientState.TrustingPeriod
+  revCheck : Bool                  -- does the tree under test compare the header's revision with its parent's (fixes/C10-header-revision.diff)
   deriving Repr, DecidableEq
 
 def two64 : Nat := 18446744073709551616
@@ -137,6 +139,7 @@ def verifyHeader (env : Env) (s : State) (now : Nat) (h : Header) : Verdict :=
   | none => .err "no-parent"
   | some p =>
     if env.hash p ≠ h.parentHash then .err "parent-hash"
+    else if s.revCheck && h.rev ≠ p.rev then .err "revision"
     else if h.time > now + 15 then .err "future"
     else if h.time ≤ p.time then .err "time"
     else match verifyEip1559 p h with
@@ -312,8 +315,40 @@ def updateClient (v : Variant) (env : Env) (now : Nat) (s : State) (h : Header) 
           .ok { s3 with head := h, cons := aset s3.cons h.number { time := h.time, root := h.root } }
 
 /-- `CreateClient`: Initialize + consensus state at the initial height -/
-def initState (env : Env) (chainId trusting : Nat) (h0 : Header) : State :=
+def initStateR (env : Env) (chainId trusting : Nat) (revCheck : Bool) (h0 : Header) : State :=
   { hdr := [(hkey env h0, h0)], rootMain := [((h0.root, h0.number), hkey env h0)],
-    cons := [(h0.number, { time := h0.time, root := h0.root })], head := h0, chainId := chainId, trusting := trusting }
+    cons := [(h0.number, { time := h0.time, root := h0.root })], head := h0, chainId := chainId, trusting := trusting, revCheck := revCheck }
+
+/-- creation on a tree with the revision check -/
+def initState (env : Env) (chainId trusting : Nat) (h0 : Header) : State := initStateR env chainId trusting true h0
+
+/-! ### several clients in one chain, restart, discarded executions -/
+
+/-- two ETH clients of one chain (client stores are prefixed by the chain name; `false` = first, `true` = second) -/
+structure World where
+  a : Option State
+  b : Option State
+  deriving Repr, DecidableEq
+
+def World.get (w : World) (i : Bool) : Option State := if i then w.b else w.a
+def World.set (w : World) (i : Bool) (s : State) : World := if i then { w with b := some s } else { w with a := some s }
+
+/-- `UpdateClient` on client `i` -/
+def World.update (v : Variant) (env : Env) (now : Nat) (w : World) (i : Bool) (h : Header) : Outcome World :=
+  match w.get i with
+  | none => .err "no-client"
+  | some s =>
+    match updateClient v env now s h with
+    | .ok s' => .ok (w.set i s')
+    | .err e => .err e
+    | .panic p => .panic p
+
+/-- ExportGenesis → JSON → Validate → wipe → InitGenesis: loses nothing the property talks about -/
+def World.restart (w : World) : World := w
+
+/-- an update executed on a cache context that is dropped (simulation, CheckTx, failed multi-message tx) -/
+def World.discarded (v : Variant) (env : Env) (now : Nat) (w : World) (i : Bool) (h : Header) : World :=
+  match World.update v env now w i h with
+  | _ => w
 
 end TM.Eth
